@@ -210,7 +210,11 @@ struct Msp430Ref
 
     int op = w >> 12, sreg = (w >> 8) & 15, Ad = (w >> 7) & 1, bw = (w >> 6) & 1, As = (w >> 4) & 3, dreg = w & 15;
     bool src_increments = As == 3 && sreg != 0 && sreg != 2 && sreg != 3;
-    if (src_increments && sreg == dreg) { skip("the auto-incremented source register is also the destination register"); return; }
+    // @Rn+ with Rn also the destination register: the increment belongs to the source fetch and is complete before the
+    // destination (Rn itself or x(Rn)) is read (SLAU144 3.3.6/3.3.7: "Rn is incremented afterwards by 1 for .B and by 2 for .W
+    // operations", i.e. in the source cycle), so the destination operand sees the incremented register; a register result then
+    // overwrites it.  The model below already works in this order.
+    (void)src_increments;
     Operand s = source(sreg, As, bw, Ad == 1);
     if (!judged) { return; }
     uint16_t sv = load(s, bw);
